@@ -13,7 +13,7 @@ use rustc_span::{Span, Symbol};
 use std::collections::{BTreeMap, BTreeSet};
 
 pub fn extract<'tcx>(tcx: TyCtxt<'tcx>, crate_name: &str) -> String {
-    let mut cx = Cx { tcx, foreign_fns: BTreeMap::new() };
+    let mut cx = Cx { tcx, foreign_fns: BTreeMap::new(), foreign_adts: BTreeMap::new() };
     let mut fns = Vec::new();
     let mut others = Vec::new();
     for ldid in tcx.hir_body_owners() {
@@ -39,6 +39,7 @@ pub fn extract<'tcx>(tcx: TyCtxt<'tcx>, crate_name: &str) -> String {
     let consts = cx.consts();
     let traits = cx.traits();
     let foreign: Vec<J> = cx.foreign_fns.values().cloned().collect();
+    let foreign_adts = cx.foreign_adt_items();
 
     let features: Vec<J> = tcx
         .sess
@@ -79,6 +80,7 @@ pub fn extract<'tcx>(tcx: TyCtxt<'tcx>, crate_name: &str) -> String {
         ("unsafe_blocks", J::Arr(unsafe_blocks)),
         ("consts", J::Arr(consts)),
         ("foreign_fns", J::Arr(foreign)),
+        ("foreign_adts", J::Arr(foreign_adts)),
     ]);
     let mut out = String::with_capacity(1 << 24);
     doc.write(&mut out);
@@ -88,6 +90,7 @@ pub fn extract<'tcx>(tcx: TyCtxt<'tcx>, crate_name: &str) -> String {
 struct Cx<'tcx> {
     tcx: TyCtxt<'tcx>,
     foreign_fns: BTreeMap<String, J>,
+    foreign_adts: BTreeMap<String, DefId>,
 }
 
 impl<'tcx> Cx<'tcx> {
@@ -677,6 +680,10 @@ impl<'tcx> Cx<'tcx> {
         }
         if let ty::Adt(def, _) = ty.kind() {
             v.push(("adt", J::s(self.path(def.did()))));
+            if !def.did().is_local() {
+                let p = self.path(def.did());
+                self.foreign_adts.entry(p).or_insert(def.did());
+            }
         }
         // unevaluated: remember which item it names
         match c {
@@ -1252,6 +1259,36 @@ impl<'tcx> Cx<'tcx> {
                 ("path", J::s(self.path(did))),
                 ("vis", J::s(format!("{:?}", tcx.visibility(did)))),
                 ("items", J::Arr(items)),
+            ]));
+        }
+        out
+    }
+
+    /// inherent associated constants / functions and variants of foreign ADTs that occur as constant types
+    fn foreign_adt_items(&mut self) -> Vec<J> {
+        let tcx = self.tcx;
+        let mut out = Vec::new();
+        let list: Vec<(String, DefId)> = self.foreign_adts.iter().map(|(k, v)| (k.clone(), *v)).collect();
+        for (path, did) in list {
+            let mut consts = Vec::new();
+            let mut fns = Vec::new();
+            for imp in tcx.inherent_impls(did).iter() {
+                for it in tcx.associated_items(*imp).in_definition_order() {
+                    let kind = format!("{:?}", it.kind);
+                    if kind.starts_with("Const") {
+                        consts.push(J::s(it.name().to_string()));
+                    } else if kind.starts_with("Fn") {
+                        fns.push(J::s(it.name().to_string()));
+                    }
+                }
+            }
+            let def = tcx.adt_def(did);
+            let variants: Vec<J> = def.variants().iter().map(|v| J::s(v.name.to_string())).collect();
+            out.push(J::Obj(vec![
+                ("path", J::s(path)),
+                ("consts", J::Arr(consts)),
+                ("fns", J::Arr(fns)),
+                ("variants", J::Arr(variants)),
             ]));
         }
         out
